@@ -25,9 +25,11 @@ Four parts:
   hist    un-pruned histories (non-initial states, re-used definition dicts), deviation-ordered by the number of
           failing steps (0, 1, 2): full alphabet to length LF, a core alphabet to length LC
   cycles  three consecutive open/close or failing cycles (repeated open/close of the same set)
-  dip     the DIP route: every program over an alphabet of $unit definitions / nodes / expressions / conditions
-          (a program that failed is a leaf), at depth 0, inside unrelated and clashing Python scopes, and continued
-          in a second parse on the returned environment
+  dip     the DIP route: every program over an alphabet of $unit definitions / nodes / expressions / conditions /
+          options / modifications, including for every DIP call site that opens a unit scope a statement that fails
+          inside that scope (a program that failed is a leaf), at depth 0, inside unrelated and clashing Python
+          scopes, and continued in a second parse on the returned environment; after a failed parse the text without
+          its failing line must parse again (twice) and leave the tables untouched
 """
 import copy
 import itertools
@@ -55,7 +57,8 @@ ASSUMPTIONS = [
     "non-LIFO closing of explicit environments, closing twice, and leaving an explicit environment open are not "
     "demanded by the statement and are not generated",
     "DIP: success is demanded only for programs whose every line has its units/nodes defined before use; numerical "
-    "expressions that do not mention a custom unit and failing !condition lines carry no demand on the outcome",
+    "expressions that do not mention a custom unit and failing !condition lines carry no demand on the outcome; "
+    "nothing is demanded about *which* statements fail, only that the tables are restored when one does",
 ]
 
 NEST = 3
@@ -1124,14 +1127,17 @@ MANIFEST = dict(
          "table symbol found only by the uniqueness check, malformed definition, inadmissible prefix, conversion class) "
          "caught after unwinding 0..3 scopes, normal end, body exception unwinding 1..3 scopes, DIP parses that succeed "
          "or fail inside the body - is applied in every reachable state with nesting <= 3 (1737 canonical states; quick "
-         "restricts the third level to with-blocks and unwinding distances 0/3); (hist) all un-pruned "
+         "visits depth-3 states only as three nested with-blocks with unwinding distances 0/3); (hist) all un-pruned "
          "histories with <= 2 failing steps up to length 3 (quick) / 4 (thorough) over the full alphabet and 5 / 6 over "
-         "a core alphabet, plus three repeated open/close cycles; (dip) every DIP line program up to 4 / 5 distinct "
-         "lines over 17 lines ($unit definitions that succeed/fail, float/int nodes, numerical and logical "
-         "expressions that succeed/raise, !condition, @case, modification) at depth 0, inside unrelated and clashing "
-         "Python scopes and continued in a second parse. On every transition: tables equal the scope-entry snapshot at "
-         "every exit / failed construction / parse, pristine at depth 0, custom units usable inside and unknown "
-         "outside. 119 090 (quick) / 1.69 million (thorough) executed histories.",
+         "a core alphabet, plus three repeated open/close cycles; (dip) every DIP line program up to 3 / 4 distinct "
+         "lines over 30 lines - 16 that work ($unit definitions, float/int nodes, numerical and logical expressions, "
+         "!condition, @case, options, modifications that convert) and 14 whose statement fails inside the unit scope "
+         "opened by each DIP call site (node_unit, node_float, node_integer, NumberType.convert for modifications and "
+         "options, numerical solver, logical solver for !condition/bool/@case: unknown unit, malformed number, refused "
+         "conversion) - at depth 0, inside unrelated and clashing Python scopes and continued in a second parse; after "
+         "a failed parse the text without its failing line is parsed twice more. On every transition: tables equal "
+         "the scope-entry snapshot at every exit / failed construction / parse, pristine at depth 0, custom units "
+         "usable inside and unknown outside.",
     note="Trusted: mc/isolation.py canonical table form (plus identity of UNIT_TYPES classes), the static stack model "
          "that says which registrations are expected to succeed. Non-LIFO closing, double close and environments left "
          "open are not demanded. Deeper nesting / longer histories rely on the small-scope hypothesis.",
